@@ -697,6 +697,54 @@ impl Gen {
             self.queue.push_back(json!({"e": "commit"}));
             return;
         }
+        if self.p.w_savepoint > 0 && self.sps.len() < 6 && rng.random_range(0..100) < 5 {
+            // two savepoints with non-durable commits after each that free pages of the captured states; one transaction
+            // restores the newer and then the older one; the savepoints go; more commits follow.  Whatever the rolled-back
+            // commits had queued for freeing belongs to states that are live again.
+            let normal: Vec<(String, Ty)> = self.known.iter().filter(|(_, t)| t.0 == "t").map(|(n, t)| (n.clone(), t.clone())).collect();
+            if !normal.is_empty() {
+                let (n, ty) = normal[rng.random_range(0..normal.len())].clone();
+                let (a, b) = (self.fresh("s"), self.fresh("s"));
+                let durable_restore = rng.random_range(0..2) == 0;
+                let churn = |g: &mut Gen, rng: &mut StdRng, sp: Option<&String>, nd: bool| {
+                    g.queue.push_back(json!({"e": "bw"}));
+                    if nd {
+                        g.queue.push_back(json!({"e": "dur", "d": "none"}));
+                    }
+                    if let Some(sp) = sp {
+                        g.queue.push_back(json!({"e": "spe", "s": sp}));
+                    }
+                    g.queue.push_back(json!({"e": "open", "n": n, "kind": "t", "kt": ty.1, "vt": ty.2}));
+                    for _ in 0..rng.random_range(3..9) {
+                        if rng.random_range(0..3) == 0 {
+                            g.queue.push_back(json!({"e": "rem", "n": n, "k": g.key(rng, &n)}));
+                        } else {
+                            let v = g.value(rng, &ty.2);
+                            g.queue.push_back(json!({"e": "ins", "n": n, "k": g.key(rng, &n), "v": v}));
+                        }
+                    }
+                    g.queue.push_back(json!({"e": "close", "n": n}));
+                    g.queue.push_back(json!({"e": "commit"}));
+                };
+                churn(self, rng, Some(&a), true);
+                churn(self, rng, None, true);
+                churn(self, rng, Some(&b), true);
+                churn(self, rng, None, true);
+                self.queue.push_back(json!({"e": "bw"}));
+                if !durable_restore {
+                    self.queue.push_back(json!({"e": "dur", "d": "none"}));
+                }
+                self.queue.push_back(json!({"e": "spreste", "s": b}));
+                self.queue.push_back(json!({"e": "spreste", "s": a}));
+                self.queue.push_back(json!({"e": "commit"}));
+                self.queue.push_back(json!({"e": "spdrop", "s": a}));
+                self.queue.push_back(json!({"e": "spdrop", "s": b}));
+                churn(self, rng, None, false);
+                let nd = rng.random_range(0..2) == 0;
+                churn(self, rng, None, nd);
+                return;
+            }
+        }
         if self.p.w_savepoint > 0 && rng.random_range(0..100) < 7 {
             // a persistent savepoint taken on top of non-durable commits: it pins a tree that has not been written out
             // yet when its own (durable) transaction commits
@@ -1024,6 +1072,15 @@ impl Gen {
                         if normal.is_empty() {
                             continue;
                         }
+                        let multi: Vec<(&String, &Ty)> = tables.iter().filter(|(_, t)| t.0 == "m").collect();
+                        if !multi.is_empty() && rng.random_range(0..3) == 0 {
+                            // the values of one multimap key (borrowed or owned), kept while later transactions remove values
+                            // of that key - the key's value list shrinks from a subtree back to an inline list - and reuse pages
+                            let (n, ty) = multi[rng.random_range(0..multi.len())];
+                            let it = self.fresh("m");
+                            let k = self.key(rng, n) % 4;
+                            return json!({"e": "mhold", "it": it, "src": h, "n": n, "kt": ty.1, "vt": ty.2, "k": k, "owned": rng.random_range(0..2) == 0});
+                        }
                         if rng.random_range(0..4) == 0 {
                             // an untyped table handle (of a table of any kind): it outlives its read transaction like an
                             // owned iterator does, and answers len() and stats()
@@ -1045,6 +1102,9 @@ impl Gen {
                         let it = self.its[rng.random_range(0..self.its.len())].clone();
                         if it.starts_with('u') {
                             return json!({"e": "ustats", "it": it});
+                        }
+                        if it.starts_with('m') {
+                            return json!({"e": "mitnext", "it": it, "cnt": rng.random_range(0..4), "rev": rng.random_range(0..2) == 0});
                         }
                         return json!({"e": "itnext", "it": it, "cnt": rng.random_range(0..6), "rev": rng.random_range(0..2) == 0});
                     }
@@ -1188,7 +1248,7 @@ impl Gen {
                     let h = ev["h"].as_str().unwrap();
                     self.readers.retain(|(x, _)| x != h);
                 }
-                "hold" | "uhold" if okr => self.its.push(ev["it"].as_str().unwrap().to_string()),
+                "hold" | "uhold" | "mhold" if okr => self.its.push(ev["it"].as_str().unwrap().to_string()),
                 "itdrop" => {
                     let it = ev["it"].as_str().unwrap();
                     self.its.retain(|x| x != it);
